@@ -485,10 +485,27 @@ def neighbourhood(case, step, rng):
     yield dict(case, ops=prefix + allobs)
     if step > 0:
         yield dict(case, ops=ops[:step] + allobs + [ops[step]] + allobs)
-    names = [op[1] for op in ops if op[0] == "newGlyph"]
-    for name in names:
-        for mut in (["gMove", name, 10, "-7/2"], ["setLeft", name, 33], ["setRight", name, 20], ["setTop", name, 12],
-                    ["setBottom", name, -5], ["cReverse", name, 0], ["cSetStart", name, 0, 1], ["cMove", name, 0, 5, 5]):
+    glyph_ops = [op for op in ops if op[0] == "newGlyph"]
+    referenced = set(k[0] for g in glyph_ops for k in g[6])
+    by_name = dict((g[1], g) for g in glyph_ops)
+
+    def curved(name, depth=0):
+        g = by_name.get(name)
+        if g is None or depth > 8:
+            return False
+        return any(_is_curved_contour(c) for c in g[5]) or any(curved(k[0], depth + 1) for k in g[6])
+
+    for g in glyph_ops:
+        name = g[1]
+        if case.get("mode", "exact") == "exact" and curved(name):
+            continue    # the exact stream sets no margins on curved glyphs (their extrema are not dyadic)
+        muts = [["setRight", name, 20], ["setTop", name, 12], ["setBottom", name, -5]]
+        if name not in referenced or ALLOW_BASE_EDITS:
+            # (the outline of a glyph that components point at stays as it is: C03 / F11)
+            muts += [["gMove", name, 10, "-7/2"], ["setLeft", name, 33]]
+            if g[5]:
+                muts += [["cReverse", name, 0], ["cSetStart", name, 0, 1], ["cMove", name, 0, 5, 5]]
+        for mut in muts:
             yield dict(case, ops=prefix + allobs + [mut] + allobs)
     yield case
 
@@ -1125,11 +1142,45 @@ def area_scale(contours):
     return m * m * max(1, sum(len(c) for c in contours))
 
 
+def _show(v):
+    """readable rendering of expected/observed values (exact fractions of floats are shown as floats)"""
+    if isinstance(v, F):
+        return str(v) if v.denominator <= 4096 else repr(float(v))
+    if isinstance(v, (list, tuple)):
+        return "(" + ", ".join(_show(x) for x in v) + ")"
+    return repr(v)
+
+
+def _dyadic(v):
+    f = F(v)
+    return f.denominator <= 4096 and abs(f.numerator) < (1 << 40)
+
+
+def world_dyadic(world):
+    for g in world.values():
+        nums = [g["width"], g["height"]] + ([] if g["vo"] is None else [g["vo"]])
+        for c in g["contours"]:
+            for p in c:
+                nums += [p[0], p[1]]
+        for _, t in g["components"]:
+            nums += list(t)
+        for a in g["anchors"]:
+            nums += list(a)
+        nums += list(g["image"])
+        if not all(_dyadic(v) for v in nums):
+            return False
+    return True
+
+
 class Oracle(object):
     """judges one operation: `before` is the raw state before it"""
 
     def __init__(self, before, mode):
         self.w = before
+        # exact judgement needs exact arithmetic: once a coordinate is no short dyadic fraction any more
+        # (say after a margin of a curved glyph was set, whose extrema are irrational) floats round
+        if mode == "exact" and not world_dyadic(before):
+            mode = "float"
         self.mode = mode
         self.tol = 0.0 if mode == "exact" else 1e-9
 
@@ -1157,7 +1208,7 @@ class Oracle(object):
 
     def v(self, clause, site, expected, observed):
         return dict(clause="C17/" + clause, signature="C17/%s/%s" % (clause, site),
-                    expected=repr(expected)[:500], observed=repr(observed)[:500])
+                    expected=_show(expected)[:500], observed=_show(observed)[:500])
 
     def same(self, a, b, tol=None, scale=0.0):
         tol = self.tol if tol is None else tol
@@ -1331,6 +1382,9 @@ class Oracle(object):
             yield self.v("mutation-raises", k, "no exception", errname)
             return
         if k in ("cMove", "gMove", "kMove", "aMove", "iMove"):
+            if (k == "cMove" and op[2] >= len(g0["contours"])) or (k == "kMove" and op[2] >= len(g0["components"])) \
+                    or (k == "aMove" and op[2] >= len(g0["anchors"])):
+                return                  # no such object: nothing to claim
             for c in g0["contours"]:
                 contour_beziers(c)      # Invalid -> no claim
             if errname:
